@@ -449,6 +449,45 @@ func opSeqls(f []string) string {
 		lines = ls
 		nerr = strings.Count(se, "Error: Failed")
 	}
+	// once more under the race detector (every case in the thorough tier, one in four otherwise):
+	// the walkers, the workers and the printer share nothing they write without synchronisation
+	if rb := cliBin("seqls.race"); !timedOut {
+		sample := os.Getenv("VERIF_TIER") == "thorough"
+		if !sample {
+			hsum := 0
+			for _, a := range f[1:] {
+				for _, c := range []byte(a) {
+					hsum = (hsum*31 + int(c)) & 0xffffff
+				}
+			}
+			sample = hsum%4 == 0
+		}
+		if _, err := os.Stat(rb); err == nil && sample {
+			so, se, code := runCmd(rb, args, "\x00none", []string{"GOMAXPROCS=16", "GORACE=halt_on_error=1 exitcode=66"}, 60*time.Second)
+			if strings.Contains(se, "DATA RACE") || code == 66 {
+				loc := ""
+				for _, l := range strings.Split(se, "\n") {
+					if strings.Contains(l, "/repo/") && loc == "" {
+						loc = strings.TrimSpace(l)
+					}
+				}
+				return "crash=" + strings.Map(func(r rune) rune {
+					if r == ';' || r == '=' || r == '\n' || r == '\t' {
+						return ' '
+					}
+					return r
+				}, "data race "+loc)
+			}
+			if code != -2 && !strings.Contains(flags, "C") {
+				ls := strings.Split(strings.TrimSuffix(so, "\n"), "\n")
+				if so == "" {
+					ls = nil
+				}
+				sort.Strings(ls)
+				outs[strings.Join(ls, "\n")] = true
+			}
+		}
+	}
 	var o Obs
 	names := make([]entry, len(nodes))
 	for i, n := range nodes {
